@@ -685,6 +685,12 @@ def _handle_call(node: ast.Call, ctx: Context) -> sympy.Expr | None:
         - object.call
         - Class.call
     """
+    if node.keywords:
+        # Only positional arguments are bound to the callee's parameters, so a
+        # call passing keyword arguments cannot be translated faithfully
+        msg = "Calls with keyword arguments are not supported"
+        raise NotImplementedError(msg)
+
     model_args: list[sympy.Expr] = []
     for i in node.args:
         if (expr := _handle_expr(i, ctx)) is None:
